@@ -372,7 +372,7 @@ def run(chk):
         cfg = flow.cfg_text(constants={"DT": tlc.tla_str(dt), "MaxLen": n},
                             overrides={"ValidV6": "MCValidV6", "FloatOK": "MCFloatOK"},
                             invariants=["ContractHolds", "KeysIdempotent", "Emit"])
-        flow.run_g(chk, mod, cfg, replay_g, nontrivial=nontrivial_g, sample_every=200003, workers=4, timeout=3000)
+        flow.run_g(chk, mod, cfg, replay_g, history_ok=True, nontrivial=nontrivial_g, sample_every=200003, workers=4, timeout=3000)
     chk.exhaustive = True
     chk.note("bounds", bounds)
     product_checks(chk)
